@@ -7,6 +7,8 @@ import WzVerif.Lemmas.FormLimits
 namespace Wz.Multipart
 open Wz
 
+variable {ep pr : Bytes} {lead : Bool}
+
 /-! ### the fuel of `drain` is irrelevant once it suffices -/
 
 theorem drain_succ (fuel : Nat) (d : Decoder) (acc : List Event) :
@@ -557,6 +559,21 @@ theorem parseHeaders_block_lf (lf : Bool) (hs : Headers) (hne : hs ≠ []) (hok 
       simp only [List.filter_cons, List.isEmpty_nil, Bool.not_true, Bool.false_eq_true, if_false]
       exact hb
 
+/-! ### bodies with a preamble -/
+
+/-- the whole body: preamble bytes `pr`, then either `CRLF--boundary…` (`lead = true`) or — only
+without a preamble — `--boundary…` directly, as browsers send it (`lead = false`) -/
+def bodyOf (bnd ep pr : Bytes) (lead : Bool) (ps : List Part) : Bytes :=
+  pr ++ (if lead then encBody bnd ep ps else (encBody bnd ep ps).drop 2)
+
+/-- the preamble does not contain `--boundary` (it may contain anything else, line breaks and dashes
+included); without the leading CRLF there is no preamble -/
+def PreOk (bnd pr : Bytes) (lead : Bool) : Prop :=
+  if lead then containsSub (delim bnd) pr = false else pr = []
+
+instance (bnd pr : Bytes) (lead : Bool) : Decidable (PreOk bnd pr lead) := by
+  unfold PreOk; split <;> infer_instance
+
 /-! ### phases of the run over the encoder output -/
 
 inductive Phase where
@@ -571,29 +588,31 @@ def Plain (bnd : Bytes) (d : Decoder) : Prop :=
 
 /-- data phases: where the delimiter that ends part `p` lies in what remains (`buf ++ fut`), what
 precedes it (after the bytes `pre` already released) and what follows it -/
-def DataInv (bnd : Bytes) (p : Part) (ps : List Part) (pre buf fut : Bytes) : Prop :=
+def DataInv (bnd ep : Bytes) (p : Part) (ps : List Part) (pre buf fut : Bytes) : Prop :=
   ∃ s0 e0, searchDelim bnd false (buf ++ fut) = some (s0, e0, ps.isEmpty) ∧
-    (pre ++ (buf ++ fut).take s0).drop 2 = p.payload ∧ (buf ++ fut).drop e0 = afterOf bnd ps
+    (pre ++ (buf ++ fut).take s0).drop 2 = p.payload ∧ (buf ++ fut).drop e0 = afterOf bnd ep ps
 
-def Good (bnd : Bytes) (d : Decoder) (fut : Bytes) : Phase → Prop
+def Good (bnd ep pr : Bytes) (lead : Bool) (d : Decoder) (fut : Bytes) : Phase → Prop
   | .pre ps =>
-    Plain bnd d ∧ d.state = .preamble ∧ d.searchPos = 0 ∧ d.buffer ++ fut = encBody bnd ps
+    Plain bnd d ∧ d.state = .preamble ∧ d.buffer ++ fut = bodyOf bnd ep pr lead ps ∧
+      ∃ b0 c0, d.buffer = b0 ++ c0 ∧ searchDelim bnd true b0 = none ∧
+        d.searchPos = b0.length - bnd.length - searchExtra
   | .hdr lf p ps =>
-    Plain bnd d ∧ d.state = .part ∧ d.buffer ++ fut = lfPre lf ++ afterOf bnd (p :: ps) ∧
+    Plain bnd d ∧ d.state = .part ∧ d.buffer ++ fut = lfPre lf ++ afterOf bnd ep (p :: ps) ∧
       ∃ b0 c0, d.buffer = b0 ++ c0 ∧ searchBlank b0 = none ∧ d.searchPos = b0.length - searchExtra
   | .dataS p ps =>
     Plain bnd d ∧ d.state = .dataStart ∧ d.searchPos = 0 ∧ 0 < lbLen d.buffer ∧
-      (∃ Z, d.buffer ++ fut = 13 :: 10 :: Z) ∧ DataInv bnd p ps [] d.buffer fut
+      (∃ Z, d.buffer ++ fut = 13 :: 10 :: Z) ∧ DataInv bnd ep p ps [] d.buffer fut
   | .dataM p ps E =>
     Plain bnd d ∧ d.state = .data ∧ d.searchPos = 0 ∧
-      ∃ pre, pre.drop 2 = E ∧ 2 ≤ pre.length ∧ DataInv bnd p ps pre d.buffer fut
+      ∃ pre, pre.drop 2 = E ∧ 2 ≤ pre.length ∧ DataInv bnd ep p ps pre d.buffer fut
   | .epi => Plain bnd d ∧ d.state = .epilogue
 
 /-- the single-shot facts about the data stretch of part `p` -/
 theorem dataOf_search {bnd : Bytes} (hb : BoundaryOk bnd) (p : Part) (ps : List Part) (hv : ValidPart bnd p) :
-    DataInv bnd p ps [] (dataOf bnd p ps) [] := by
+    DataInv bnd ep p ps [] (dataOf bnd ep p ps) [] := by
   have hf := validPart_facts hv
-  have hspec : dataSpec bnd true (dataOf bnd p ps) = some (p.payload, ps.isEmpty, afterOf bnd ps) := by
+  have hspec : dataSpec bnd true (dataOf bnd ep p ps) = some (p.payload, ps.isEmpty, afterOf bnd ep ps) := by
     unfold dataOf
     rw [encBody_eq]
     cases hp : p.payload with
@@ -602,14 +621,14 @@ theorem dataOf_search {bnd : Bytes} (hb : BoundaryOk bnd) (p : Part) (ps : List 
       exact dataSpec_encoded_empty (bnd := bnd) _ (afterDelim_tailOf bnd ps)
     | cons a t =>
       simp only [List.isEmpty_cons, Bool.false_eq_true, if_false]
-      have := dataSpec_encoded hb (a :: t) (tailOf bnd ps) (by rw [← hp]; exact hf.2.2.2.2.2)
+      have := dataSpec_encoded hb (a :: t) (tailOf bnd ep ps) (by rw [← hp]; exact hf.2.2.2.2.2)
         (afterDelim_tailOf bnd ps)
       simpa using this
-  have hlb : lbLen (dataOf bnd p ps) = 2 := by
+  have hlb : lbLen (dataOf bnd ep p ps) = 2 := by
     rcases dataOf_blank bnd p ps with ⟨Z, hZ⟩
     rw [hZ]; exact lbLen_crlf _
   rw [dataSpec_true, hlb] at hspec
-  cases hs : searchDelim bnd false (dataOf bnd p ps) with
+  cases hs : searchDelim bnd false (dataOf bnd ep p ps) with
   | none => rw [hs] at hspec; simp at hspec
   | some v =>
     rcases v with ⟨s, e, f⟩
@@ -620,16 +639,16 @@ theorem dataOf_search {bnd : Bytes} (hb : BoundaryOk bnd) (p : Part) (ps : List 
     exact ⟨s, e, by simpa using hs, by simpa using hpay, by simpa using hrest⟩
 
 theorem afterOf_cons_blank (bnd : Bytes) (p : Part) (ps : List Part) :
-    ∃ Z, afterOf bnd (p :: ps) = hdrBlock (nameOf p) p ++ 13 :: 10 :: 13 :: 10 :: Z ∧
-      dataOf bnd p ps = 13 :: 10 :: Z := by
+    ∃ Z, afterOf bnd ep (p :: ps) = hdrBlock (nameOf p) p ++ 13 :: 10 :: 13 :: 10 :: Z ∧
+      dataOf bnd ep p ps = 13 :: 10 :: Z := by
   rcases dataOf_blank bnd p ps with ⟨Z, hZ⟩
   exact ⟨Z, by rw [afterOf_cons, hZ], hZ⟩
 
 /-- one `next_event` in the PART phase, on any prefix of the stream -/
 theorem step_hdr {bnd : Bytes} (hb : BoundaryOk bnd) {d : Decoder} {fut : Bytes} {lf : Bool} {p : Part}
-    {ps : List Part} (hv : ValidPart bnd p) (hg : Good bnd d fut (.hdr lf p ps)) :
-    (∃ d', nextEvent d = .ok (.needData, d') ∧ Good bnd d' fut (.hdr lf p ps) ∧ fut ≠ []) ∨
-    (∃ d', nextEvent d = .ok (partHeadEvent (decodedPart p), d') ∧ Good bnd d' fut (.dataS p ps)) := by
+    {ps : List Part} (hv : ValidPart bnd p) (hg : Good bnd ep pr lead d fut (.hdr lf p ps)) :
+    (∃ d', nextEvent d = .ok (.needData, d') ∧ Good bnd ep pr lead d' fut (.hdr lf p ps) ∧ fut ≠ []) ∨
+    (∃ d', nextEvent d = .ok (partHeadEvent (decodedPart p), d') ∧ Good bnd ep pr lead d' fut (.dataS p ps)) := by
   rcases hg with ⟨⟨hbn, hcomp, hmm, hmp⟩, hst, hcat, b0, c0, hbc, hb0, hpos⟩
   have hf := validPart_facts hv
   have hok := allHeadersOk hv
@@ -658,11 +677,11 @@ theorem step_hdr {bnd : Bytes} (hb : BoundaryOk bnd) {d : Decoder} {fut : Bytes}
     have hparse : parseHeaders (lfPre lf ++ hdrBlock (nameOf p) p) =
         .ok (cdHeader (nameOf p) p.filename :: p.headers) :=
       parseHeaders_block_lf lf _ (by simp) hok
-    have hdropW : (d.buffer ++ fut).drop (L + 2) = dataOf bnd p ps := by
+    have hdropW : (d.buffer ++ fut).drop (L + 2) = dataOf bnd ep p ps := by
       rw [hW, ← List.append_assoc, hdZ]
       have : L + 2 = 2 + (lfPre lf ++ hdrBlock (nameOf p) p).length := by simp [L]; omega
       rw [this, drop_add_append]; rfl
-    have hdrop : d.buffer.drop (L + 2) ++ fut = dataOf bnd p ps := by
+    have hdrop : d.buffer.drop (L + 2) ++ fut = dataOf bnd ep p ps := by
       rw [← hdropW, List.drop_append_of_le_length (by omega)]
     have hopt := FormOptions.parseOptions_disposition_lemma (nameOf p) p.filename hf.1
       (fun x hx => (hf.2.2.1 x hx).1)
@@ -701,7 +720,7 @@ theorem step_hdr {bnd : Bytes} (hb : BoundaryOk bnd) {d : Decoder} {fut : Bytes}
           rw [hbuf] at hpre
           simp at hpre
           rw [hpre.1, hpre.2.1]; simp [lbLen]
-      · have := dataOf_search hb p ps hv
+      · have := dataOf_search (ep := ep) hb p ps hv
         rcases this with ⟨s0, e0, h1, h2, h3⟩
         simp only [List.append_nil] at h1 h2 h3
         exact ⟨s0, e0, by simp only [d']; rw [hdrop]; exact h1, by simp only [d']; rw [hdrop]; exact h2,
@@ -756,22 +775,22 @@ theorem matchDelimAt_false_of_true {bnd x : Bytes} {n : Nat} {f : Bool} (hl : 0 
 
 /-- the whole body has its first delimiter at offset 0 -/
 theorem encBody_match (bnd : Bytes) (ps : List Part) :
-    ∃ m, matchDelimAt bnd false (encBody bnd ps) = some (2 + (bnd.length + 2) + m, ps.isEmpty) ∧
-      (encBody bnd ps).drop (2 + (bnd.length + 2) + m) = afterOf bnd ps := by
+    ∃ m, matchDelimAt bnd false (encBody bnd ep ps) = some (2 + (bnd.length + 2) + m, ps.isEmpty) ∧
+      (encBody bnd ep ps).drop (2 + (bnd.length + 2) + m) = afterOf bnd ep ps := by
   rcases matchTail_afterDelim (afterDelim_tailOf bnd ps) with ⟨m, hm, hdrop⟩
   refine ⟨m, ?_, ?_⟩
   · rw [encBody_eq]
     apply matchDelimAt_iff.2
-    exact ⟨tailOf bnd ps, m, by simp [lbLen_crlf], by simp [lbLen_crlf], hm, by simp [lbLen_crlf]⟩
+    exact ⟨tailOf bnd ep ps, m, by simp [lbLen_crlf], by simp [lbLen_crlf], hm, by simp [lbLen_crlf]⟩
   · rw [encBody_eq]
-    have e : (13 :: 10 :: (delim bnd ++ tailOf bnd ps) : Bytes) = [13, 10] ++ (delim bnd ++ tailOf bnd ps) := rfl
+    have e : (13 :: 10 :: (delim bnd ++ tailOf bnd ep ps) : Bytes) = [13, 10] ++ (delim bnd ++ tailOf bnd ep ps) := rfl
     have e2 : 2 + (bnd.length + 2) + m = (m + (delim bnd).length) + ([13, 10] : Bytes).length := by
       simp [delim]; omega
     rw [e, e2, drop_add_append, drop_add_append, hdrop]
 
 /-- while the first delimiter is not complete in the buffer, `preamble_re` finds nothing at all -/
 theorem pre_no_match {bnd : Bytes} (hb : BoundaryOk bnd) {ps : List Part} {b fut : Bytes}
-    (hcat : b ++ fut = encBody bnd ps) (h0 : matchDelimAt bnd true b = none) :
+    (hcat : b ++ fut = encBody bnd ep ps) (h0 : matchDelimAt bnd true b = none) :
     searchDelim bnd true b = none ∧ b.length ≤ bnd.length + 5 := by
   rcases encBody_match bnd ps with ⟨m, hM, _⟩
   have hMt := matchDelimAt_true_of_false hM
@@ -793,17 +812,17 @@ theorem pre_no_match {bnd : Bytes} (hb : BoundaryOk bnd) {ps : List Part} {b fut
         | nil => simp at hf
         | cons p ps =>
           rcases hdrBlock_head (nameOf p) p with ⟨r, hr⟩
-          have ht : tailOf bnd (p :: ps) = 13 :: 10 :: 67 :: (r ++ 13 :: 10 ::
-              ((if p.payload.isEmpty then [] else 13 :: 10 :: p.payload) ++ encBody bnd ps)) := by
+          have ht : tailOf bnd ep (p :: ps) = 13 :: 10 :: 67 :: (r ++ 13 :: 10 ::
+              ((if p.payload.isEmpty then [] else 13 :: 10 :: p.payload) ++ encBody bnd ep ps)) := by
             simp [tailOf, hr]
-          have hmt : matchTail (tailOf bnd (p :: ps)) = some (2, false) := by
+          have hmt : matchTail (tailOf bnd ep (p :: ps)) = some (2, false) := by
             rw [ht]; apply matchTail_false_iff.2
             exact ⟨[], 13, _, rfl, by simp, by decide, by simp [lbLen_crlf]⟩
           rw [← hcat] at hM
           rcases matchDelimAt_iff.1 hM with ⟨r', m', _, hd, hm', hn⟩
           rw [hcat, encBody_eq] at hd hn
           simp [lbLen_crlf] at hd hn
-          have : r' = tailOf bnd (p :: ps) := hd.symm
+          have : r' = tailOf bnd ep (p :: ps) := hd.symm
           rw [this, hmt] at hm'
           simp at hm'
           omega
@@ -812,7 +831,7 @@ theorem pre_no_match {bnd : Bytes} (hb : BoundaryOk bnd) {ps : List Part} {b fut
       rw [h0] at this; simp at this
   refine ⟨?_, hshort⟩
   -- no position of the buffer carries a match
-  have hpre : b <+: encBody bnd ps := ⟨fut, hcat⟩
+  have hpre : b <+: encBody bnd ep ps := ⟨fut, hcat⟩
   have hall : ∀ j, matchDelimAt bnd true (b.drop j) = none := by
     intro j
     cases hx : matchDelimAt bnd true (b.drop j) with
@@ -829,7 +848,7 @@ theorem pre_no_match {bnd : Bytes} (hb : BoundaryOk bnd) {ps : List Part} {b fut
         | some w =>
           rcases w with ⟨s', e', f'⟩
           rcases searchDelim_append_stable hb hs fut with ⟨e2, hst, _⟩
-          have hS0 : searchDelim bnd false (encBody bnd ps) =
+          have hS0 : searchDelim bnd false (encBody bnd ep ps) =
               some (0, 2 + (bnd.length + 2) + m, ps.isEmpty) := by
             rw [encBody_eq] at hM ⊢
             exact searchDelim_cons_some hM
@@ -852,7 +871,7 @@ theorem pre_no_match {bnd : Bytes} (hb : BoundaryOk bnd) {ps : List Part} {b fut
         | 0, _ => simp only [List.drop_zero] at hx; rw [h0] at hx; simp at hx
         | 1, _ =>
           -- byte 1 of the body is LF
-          have : b.drop 1 <+: (encBody bnd ps).drop 1 := by
+          have : b.drop 1 <+: (encBody bnd ep ps).drop 1 := by
             rcases hpre with ⟨t, ht⟩
             refine ⟨t, ?_⟩
             rw [← ht, List.drop_append_of_le_length (by omega)]
@@ -865,7 +884,7 @@ theorem pre_no_match {bnd : Bytes} (hb : BoundaryOk bnd) {ps : List Part} {b fut
           have hb2 : b = 13 :: 10 :: (delim bnd ++ r) := by
             have h2 : 2 ≤ b.length := by omega
             have htake : b.take 2 = [13, 10] := by
-              have : b.take 2 <+: (encBody bnd ps) := List.IsPrefix.trans (List.take_prefix 2 b) hpre
+              have : b.take 2 <+: (encBody bnd ep ps) := List.IsPrefix.trans (List.take_prefix 2 b) hpre
               rw [encBody_eq] at this
               rcases this with ⟨t, ht⟩
               have hl2 : (b.take 2).length = 2 := by simp [Nat.min_eq_left h2]
@@ -887,101 +906,301 @@ theorem pre_no_match {bnd : Bytes} (hb : BoundaryOk bnd) {ps : List Part} {b fut
   simp [searchDelim]
 
 /-- what comes after the delimiter that ends a part -/
-def GoodNext (bnd : Bytes) (d : Decoder) (fut : Bytes) : List Part → Prop
-  | [] => Good bnd d fut .epi
-  | p :: ps => ∃ lf, Good bnd d fut (.hdr lf p ps)
+def GoodNext (bnd ep pr : Bytes) (lead : Bool) (d : Decoder) (fut : Bytes) : List Part → Prop
+  | [] => Good bnd ep pr lead d fut .epi
+  | p :: ps => ∃ lf, Good bnd ep pr lead d fut (.hdr lf p ps)
 
-/-- one `next_event` in the PREAMBLE phase, on any prefix of the encoder output -/
-theorem step_pre {bnd : Bytes} (hb : BoundaryOk bnd) {d : Decoder} {fut : Bytes} {ps : List Part}
-    (hg : Good bnd d fut (.pre ps)) :
-    (∃ d', nextEvent d = .ok (.needData, d') ∧ Good bnd d' fut (.pre ps) ∧ fut ≠ []) ∨
-    (∃ d', nextEvent d = .ok (.preamble [], d') ∧ GoodNext bnd d' fut ps) := by
-  rcases hg with ⟨hpl, hst, hsp, hcat⟩
-  have hpl' := hpl
-  rcases hpl with ⟨hbn, hcomp, hmm, hmp⟩
-  rcases encBody_match bnd ps with ⟨m, hM, hMdrop⟩
-  have hfrom : searchDelimFrom d.boundary true d.searchPos d.buffer = searchDelim bnd true d.buffer := by
-    rw [searchDelimFrom_eq_shift, hsp, hbn]; simp
-  cases h0 : matchDelimAt bnd true d.buffer with
-  | none =>
-    left
-    rcases pre_no_match hb hcat h0 with ⟨hnone, hshort⟩
-    let d' : Decoder := { d with searchPos := d.buffer.length - d.boundary.length - searchExtra }
-    have hsp' : d'.searchPos = 0 := by
-      simp only [d', hbn, searchExtra_eq]; omega
-    refine ⟨d', ?_, ⟨hpl', hst, hsp', hcat⟩, ?_⟩
-    · unfold nextEvent
-      have hstep : step d = .ok (.needData, d') := by
-        unfold step
-        rw [hst]
-        simp only
-        rw [hfrom, hnone]
-        simp only [d']
-        congr 2
-        cases d; simp_all
-      rw [hstep, hcomp]; simp
-    · intro hfe
-      rw [hfe, List.append_nil] at hcat
-      rw [hcat, matchDelimAt_true_of_false hM] at h0; simp at h0
+/-- anchored `preamble_re` matches persist under extension -/
+theorem matchDelimAt_true_append {bnd x : Bytes} {n : Nat} {f : Bool} (c : Bytes)
+    (h : matchDelimAt bnd true x = some (n, f)) : ∃ n', matchDelimAt bnd true (x ++ c) = some (n', f) := by
+  rcases matchDelimAt_iff'.1 h with ⟨r, m, _, hd, hm, _⟩
+  rcases matchTail_append c hm with ⟨m', hm', _⟩
+  have hlen : x.length = lbLen x + (bnd.length + 2) + r.length := by
+    have := congrArg List.length hd
+    simp [delim] at this
+    have := lbLen_le_length x
+    omega
+  have hlb : lbLen (x ++ c) = lbLen x := lbLen_append_of_two_le c (by omega)
+  refine ⟨_, matchDelimAt_iff'.2 ⟨r ++ c, m', by simp, ?_, hm', rfl⟩⟩
+  rw [hlb, List.drop_append_of_le_length (lbLen_le_length x), hd]; simp
+
+/-- `preamble_re` finds nothing that starts inside a preamble without `--boundary` -/
+theorem no_match_in_pre {bnd : Bytes} (hb : BoundaryOk bnd) {pr : Bytes} (Y : Bytes)
+    (h : containsSub (delim bnd) pr = false) :
+    ∀ j, j < pr.length → matchDelimAt bnd true ((pr ++ 13 :: Y).drop j) = none := by
+  intro j hj
+  cases hx : matchDelimAt bnd true ((pr ++ 13 :: Y).drop j) with
+  | none => rfl
   | some v =>
-    right
-    rcases v with ⟨e, f⟩
-    -- the buffer starts with CRLF: the match is one of `boundary_re` too
+    exfalso
+    rcases v with ⟨n, f⟩
+    rw [List.drop_append_of_le_length (by omega)] at hx
+    rcases matchDelimAt_iff'.1 hx with ⟨r, m, _, hd, _, _⟩
+    have hu : 0 < (pr.drop j).length := by simp; omega
+    -- the leading line break (if any) lies inside the preamble
+    have hlb : lbLen (pr.drop j ++ 13 :: Y) ≤ (pr.drop j).length := by
+      match hq : pr.drop j, hu with
+      | [a], _ =>
+        simp only [List.singleton_append, List.length_singleton]
+        by_cases ha : a = 13
+        · subst ha; rw [lbLen_cr_not_lf Y (by decide)]; omega
+        · by_cases ha2 : a = 10
+          · subst ha2; rw [lbLen_lf]; omega
+          · rw [lbLen_cons_not_nl (by simp [isNl, ha, ha2])]; omega
+      | a :: b :: t, _ =>
+        have := lbLen_le_two ((a :: b :: t) ++ 13 :: Y)
+        simp at this ⊢; omega
+    rw [List.drop_append_of_le_length hlb] at hd
+    have hp : (delim bnd).isPrefixOf ((pr.drop j).drop (lbLen (pr.drop j ++ 13 :: Y)) ++ 13 :: Y) = true := by
+      rw [hd, List.isPrefixOf_iff_prefix]; exact List.prefix_append _ _
+    rw [isPrefixOf_append_nl _ Y (delim_no_nl hb) (by decide), List.drop_drop] at hp
+    have : containsSub (delim bnd) pr = true := by
+      rw [← List.take_append_drop (j + lbLen (pr.drop j ++ 13 :: Y)) pr]
+      exact containsSub_append_left _ (containsSub_of_prefix hp)
+    rw [h] at this; simp at this
+
+/-- the body from `CRLF--boundary` on: what `preamble_re` anchored at its start says about a prefix -/
+theorem crlf_core {bnd : Bytes} (hb : BoundaryOk bnd) {ps : List Part} {b fut : Bytes}
+    (hcat : b ++ fut = encBody bnd ep ps) :
+    (matchDelimAt bnd true b = none → searchDelim bnd true b = none ∧ fut ≠ []) ∧
+    (∀ e f, matchDelimAt bnd true b = some (e, f) →
+      f = ps.isEmpty ∧ 0 < e ∧ e ≤ b.length ∧ (f = false → e ≤ bnd.length + 6) ∧
+      (f = false → ∃ lf, b.drop e ++ fut = lfPre lf ++ afterOf bnd ep ps)) := by
+  rcases encBody_match (ep := ep) bnd ps with ⟨m, hM, hMdrop⟩
+  constructor
+  · intro h0
+    refine ⟨(pre_no_match hb hcat h0).1, ?_⟩
+    intro hfe
+    rw [hfe, List.append_nil] at hcat
+    rw [hcat, matchDelimAt_true_of_false hM] at h0; simp at h0
+  · intro e f h0
     have hbnd0 := matchDelimAt_bounds_any h0
-    have hlb : 0 < lbLen d.buffer := by
-      have h2 : 2 ≤ d.buffer.length := by
+    have hlb : 0 < lbLen b := by
+      have h2 : 2 ≤ b.length := by
         rcases matchDelimAt_iff'.1 h0 with ⟨r, m1, _, hd, _, hn⟩
-        have := lbLen_le_length d.buffer
+        have := lbLen_le_length b
         omega
-      rcases encBody_eq bnd ps ▸ hcat with hc
-      rw [lbLen_of_crlf_prefix (Z := delim bnd ++ tailOf bnd ps) (by rw [hcat, encBody_eq]) h2]; omega
+      rw [lbLen_of_crlf_prefix (Z := delim bnd ++ tailOf bnd ep ps) (by rw [hcat, encBody_eq]) h2]; omega
     have h0f := matchDelimAt_false_of_true hlb h0
     rcases matchDelimAt_append fut h0f with ⟨e', he', hrel⟩
     rw [hcat, hM] at he'
     simp only [Option.some.injEq, Prod.mk.injEq] at he'
     rcases he' with ⟨he', hF⟩
-    have hsearch : searchDelim bnd true d.buffer = some (0, e, f) := by
-      cases hbuf : d.buffer with
-      | nil => rw [hbuf] at hbnd0; simp at hbnd0; omega
-      | cons a t => rw [hbuf] at h0; exact searchDelim_cons_some h0
+    refine ⟨hF.symm, hbnd0.1, hbnd0.2, ?_, ?_⟩
+    · intro hf
+      -- a non-closing first delimiter is `CRLF--boundary CRLF`
+      subst hf
+      cases ps with
+      | nil => simp at hF
+      | cons p ps =>
+        rcases hdrBlock_head (nameOf p) p with ⟨r, hr⟩
+        have hmt : matchTail (tailOf bnd ep (p :: ps)) = some (2, false) := by
+          simp only [tailOf, hr]
+          apply matchTail_false_iff.2
+          exact ⟨[], 13, _, rfl, by simp, by decide, by simp [lbLen_crlf]⟩
+        rcases matchDelimAt_iff.1 hM with ⟨r', m', _, hd, hm', hn⟩
+        rw [encBody_eq] at hd hn
+        simp [lbLen_crlf] at hd hn
+        rw [← hd, hmt] at hm'
+        simp at hm'
+        rcases hrel rfl with h1 | ⟨h1, _, _⟩ <;> omega
+    · intro hf
+      subst hf
+      rcases hrel rfl with heq | ⟨heq, hlen, c', hc⟩
+      · refine ⟨false, ?_⟩
+        simp only [lfPre, Bool.false_eq_true, if_false, List.nil_append]
+        rw [← hMdrop, he', heq, ← hcat, List.drop_append_of_le_length hbnd0.2]
+      · refine ⟨true, ?_⟩
+        simp only [lfPre, if_true]
+        have hd0 : b.drop e = [] := by rw [← hlen]; simp
+        simp only [hd0, List.nil_append, hc]
+        rw [← hMdrop, he', heq, ← hcat, hc, ← hlen]
+        have := drop_add_append b (10 :: c') 1
+        rw [Nat.add_comm] at this
+        rw [this]; rfl
+
+/-- **the first delimiter of a body with preamble**, seen through any prefix of the body -/
+theorem pre_search {bnd : Bytes} (hb : BoundaryOk bnd) (hpre : PreOk bnd pr lead) {ps : List Part}
+    {b fut : Bytes} (hcat : b ++ fut = bodyOf bnd ep pr lead ps) :
+    (searchDelim bnd true b = none ∧ fut ≠ []) ∨
+    (∃ e f, searchDelim bnd true b = some (pr.length, e, f) ∧ f = ps.isEmpty ∧ pr.length < e ∧
+      e ≤ b.length ∧ (f = false → e - pr.length ≤ bnd.length + 6) ∧
+      (f = false → ∃ lf, b.drop e ++ fut = lfPre lf ++ afterOf bnd ep ps)) := by
+  cases lead with
+  | true =>
+    simp only [PreOk, if_true] at hpre
+    simp only [bodyOf, if_true] at hcat
+    have hY : encBody bnd ep ps = 13 :: 10 :: (delim bnd ++ tailOf bnd ep ps) := encBody_eq bnd ps
+    -- nothing matches at a position inside the preamble, in the buffer or in the body
+    have hnone : ∀ j, j < pr.length → matchDelimAt bnd true (b.drop j) = none := by
+      intro j hj
+      cases hx : matchDelimAt bnd true (b.drop j) with
+      | none => rfl
+      | some v =>
+        exfalso
+        rcases v with ⟨n, f⟩
+        have hjb : j ≤ b.length := by
+          apply Nat.le_of_not_lt; intro hlt
+          rw [List.drop_eq_nil_of_le (by omega)] at hx
+          simp [matchDelimAt, lbLen] at hx
+        rcases matchDelimAt_true_append fut hx with ⟨n', hn'⟩
+        rw [← List.drop_append_of_le_length hjb, hcat, hY] at hn'
+        rw [no_match_in_pre hb _ hpre j hj] at hn'; simp at hn'
+    by_cases hlen : b.length ≤ pr.length
+    · left
+      constructor
+      · have := searchDelim_skip (bnd := bnd) (o := true) b b.length (fun j hj => hnone j (by omega))
+        rw [this]; simp [searchDelim]
+      · intro hfe
+        rw [hfe, List.append_nil] at hcat
+        have := congrArg List.length hcat
+        rw [hY] at this
+        simp at this; omega
+    · have hsplit : b = pr ++ b.drop pr.length := by
+        have h1 : b.take pr.length = pr := by
+          have : (b ++ fut).take pr.length = pr := by rw [hcat]; simp
+          rw [List.take_append_of_le_length (by omega)] at this; exact this
+        have h2 := List.take_append_drop pr.length b
+        rw [h1] at h2
+        exact h2.symm
+      have hcat' : b.drop pr.length ++ fut = encBody bnd ep ps := by
+        have : (b ++ fut).drop pr.length = encBody bnd ep ps := by rw [hcat]; simp
+        rw [List.drop_append_of_le_length (by omega)] at this; exact this
+      have hskip := searchDelim_skip (bnd := bnd) (o := true) b pr.length hnone
+      rcases crlf_core hb hcat' with ⟨hA, hB⟩
+      cases h0 : matchDelimAt bnd true (b.drop pr.length) with
+      | none =>
+        left
+        rcases hA h0 with ⟨h1, h2⟩
+        exact ⟨by rw [hskip, h1]; rfl, h2⟩
+      | some v =>
+        right
+        rcases v with ⟨e, f⟩
+        rcases hB e f h0 with ⟨hf, he0, hle, hbound, hnext⟩
+        have hs0 : searchDelim bnd true (b.drop pr.length) = some (0, e, f) := by
+          cases hq : b.drop pr.length with
+          | nil => rw [hq] at hle; simp at hle; omega
+          | cons a t => rw [hq] at h0; exact searchDelim_cons_some h0
+        refine ⟨e + pr.length, f, by rw [hskip, hs0]; simp [shift], hf, by omega, ?_, ?_, ?_⟩
+        · simp at hle; omega
+        · intro h; have := hbound h; omega
+        · intro h
+          rcases hnext h with ⟨lf, hl⟩
+          refine ⟨lf, ?_⟩
+          rw [← hl, Nat.add_comm, ← List.drop_drop]
+  | false =>
+    simp only [PreOk, Bool.false_eq_true, if_false] at hpre
+    subst hpre
+    simp only [bodyOf, Bool.false_eq_true, if_false, List.nil_append] at hcat
+    have hY : encBody bnd ep ps = 13 :: 10 :: (delim bnd ++ tailOf bnd ep ps) := encBody_eq bnd ps
+    rw [hY] at hcat
+    simp only [List.drop_succ_cons, List.drop_zero] at hcat
+    have hcat2 : (13 :: 10 :: b) ++ fut = encBody bnd ep ps := by rw [hY]; simp [hcat]
+    rcases crlf_core hb hcat2 with ⟨hA, hB⟩
+    -- the same match with and without the leading CRLF
+    have hrel : ∀ e f, matchDelimAt bnd true (13 :: 10 :: b) = some (e, f) →
+        matchDelimAt bnd true b = some (e - 2, f) ∧ 2 ≤ e := by
+      intro e f h
+      rcases matchDelimAt_iff'.1 h with ⟨r, m, _, hd, hm, hn⟩
+      rw [lbLen_crlf] at hd hn
+      simp only [List.drop_succ_cons, List.drop_zero] at hd
+      have hl0 : lbLen b = 0 := by rw [hd]; exact lbLen_cons_not_nl (by decide)
+      exact ⟨matchDelimAt_iff'.2 ⟨r, m, by simp, by rw [hl0]; simpa using hd, hm, by rw [hl0]; omega⟩, by omega⟩
+    cases h0 : matchDelimAt bnd true (13 :: 10 :: b) with
+    | none =>
+      left
+      rcases hA h0 with ⟨h1, h2⟩
+      refine ⟨?_, h2⟩
+      have := (searchDelim_cons_eq_none.1 h1).2
+      exact (searchDelim_cons_eq_none.1 this).2
+    | some v =>
+      right
+      rcases v with ⟨e, f⟩
+      rcases hB e f h0 with ⟨hf, he0, hle, hbound, hnext⟩
+      rcases hrel e f h0 with ⟨hm, he2⟩
+      have hbounds := matchDelimAt_bounds_any hm
+      have hs0 : searchDelim bnd true b = some (0, e - 2, f) := by
+        cases hq : b with
+        | nil => rw [hq] at hbounds; simp at hbounds; omega
+        | cons a t => rw [hq] at hm; exact searchDelim_cons_some hm
+      refine ⟨e - 2, f, by simpa using hs0, hf, by simp; omega, hbounds.2, ?_, ?_⟩
+      · intro h; have := hbound h; simp; omega
+      · intro h
+        rcases hnext h with ⟨lf, hl⟩
+        refine ⟨lf, ?_⟩
+        rw [← hl]
+        have : (13 :: 10 :: b).drop e = b.drop (e - 2) := by
+          have : e = (e - 2) + 2 := by omega
+          rw [this]; simp
+        rw [this]
+
+theorem nextEvent_of_step' {d d' : Decoder} {ev : Event} (hc : d.complete = false)
+    (h : step d = .ok (ev, d')) : nextEvent d = .ok (ev, d') := by
+  unfold nextEvent; rw [h, hc]; simp
+
+/-- one `next_event` in the PREAMBLE phase, on any prefix of the body -/
+theorem step_pre {bnd : Bytes} (hb : BoundaryOk bnd) (hpre : PreOk bnd pr lead) {d : Decoder} {fut : Bytes}
+    {ps : List Part} (hg : Good bnd ep pr lead d fut (.pre ps)) :
+    (∃ d', nextEvent d = .ok (.needData, d') ∧ Good bnd ep pr lead d' fut (.pre ps) ∧ fut ≠ []) ∨
+    (∃ x d', nextEvent d = .ok (.preamble x, d') ∧ GoodNext bnd ep pr lead d' fut ps) := by
+  rcases hg with ⟨hpl, hst, hcat, b0, c0, hbc, hb0, hpos⟩
+  have hpl' := hpl
+  rcases hpl with ⟨hbn, hcomp, hmm, hmp⟩
+  have hps := pre_search (ep := ep) hb hpre hcat
+  -- the retained search position does not matter: the first delimiter is short
+  have hpad : PadOk bnd (b0 ++ c0) := by
+    rw [← hbc]
+    unfold PadOk
+    rcases hps with ⟨h1, _⟩ | ⟨e, f, h1, _, _, _, h5, _⟩
+    · rw [h1]; trivial
+    · rw [h1]
+      cases f with
+      | true => trivial
+      | false => simp only; have := h5 rfl; rw [searchExtra_eq]; omega
+  have hfrom : searchDelimFrom d.boundary true d.searchPos d.buffer = searchDelim bnd true d.buffer := by
+    rw [hpos, hbn, hbc]; exact searchPos_irrelevant_lemma hb0 hpad
+  rcases hps with ⟨hnone, hfut⟩ | ⟨e, f, hsome, hf, hlt, hle, _, hnext⟩
+  · left
+    let d' : Decoder := { d with searchPos := d.buffer.length - d.boundary.length - searchExtra }
+    refine ⟨d', ?_, ⟨hpl', hst, hcat, d.buffer, [], by simp [d'], hnone, by simp [d', hbn]⟩, hfut⟩
+    apply nextEvent_of_step' hcomp
+    unfold step
+    rw [hst]
+    simp only
+    rw [hfrom, hnone]
+    simp only [d']
+    congr 2
+    cases d
+    simp only at hst
+    subst hst
+    rfl
+  · right
     let d' : Decoder := { d with buffer := d.buffer.drop e, state := afterDelim f, searchPos := 0 }
-    refine ⟨d', ?_, ?_⟩
-    · unfold nextEvent
-      have hstep : step d = .ok (.preamble [], d') := by
-        unfold step
-        rw [hst]
-        simp only
-        rw [hfrom, hsearch]
-        simp only [d', List.take_zero]
-      rw [hstep, hcomp]; simp
+    refine ⟨d.buffer.take pr.length, d', ?_, ?_⟩
+    · apply nextEvent_of_step' hcomp
+      unfold step
+      rw [hst]
+      simp only
+      rw [hfrom, hsome]
     · cases ps with
       | nil =>
-        simp only [List.isEmpty_nil] at hF
-        subst hF
+        simp only [List.isEmpty_nil] at hf
+        subst hf
         exact ⟨hpl', rfl⟩
       | cons p' ps' =>
-        simp only [List.isEmpty_cons] at hF
-        subst hF
-        rcases hrel rfl with heq | ⟨heq, hlen, c', hc⟩
-        · refine ⟨false, hpl', rfl, ?_, [], d.buffer.drop e, by simp [d'], by simp [searchBlank], by simp [d']⟩
-          simp only [lfPre, Bool.false_eq_true, if_false, List.nil_append, d']
-          rw [← hMdrop, he', heq, ← hcat, List.drop_append_of_le_length hbnd0.2]
-        · refine ⟨true, hpl', rfl, ?_, [], d.buffer.drop e, by simp [d'], by simp [searchBlank], by simp [d']⟩
-          simp only [lfPre, if_true, d']
-          have hd0 : d.buffer.drop e = [] := by rw [← hlen]; simp
-          simp only [hd0, List.nil_append, hc]
-          rw [← hMdrop, he', heq, ← hcat, hc, ← hlen]
-          have := drop_add_append d.buffer (10 :: c') 1
-          rw [Nat.add_comm] at this
-          rw [this]; rfl
+        simp only [List.isEmpty_cons] at hf
+        subst hf
+        rcases hnext rfl with ⟨lf, hl⟩
+        exact ⟨lf, hpl', rfl, by simpa [d'] using hl, [], d.buffer.drop e, by simp [d'],
+          by simp [searchBlank], by simp [d']⟩
 
 /-- a delimiter recognised in the buffer: it is the one that ends the part -/
 theorem decision_next {bnd : Bytes} (hb : BoundaryOk bnd) {d : Decoder} {fut pre : Bytes} {p : Part}
     {ps : List Part} (hpl : Plain bnd d) (hsp : d.searchPos = 0)
-    (hinv : DataInv bnd p ps pre d.buffer fut) {s1 e1 : Nat} {f1 : Bool}
+    (hinv : DataInv bnd ep p ps pre d.buffer fut) {s1 e1 : Nat} {f1 : Bool}
     (hs : searchDelim bnd false d.buffer = some (s1, e1, f1)) :
     f1 = ps.isEmpty ∧ (pre ++ d.buffer.take s1).drop 2 = p.payload ∧
-      GoodNext bnd { d with buffer := d.buffer.drop e1, state := afterDelim f1 } fut ps := by
+      GoodNext bnd ep pr lead { d with buffer := d.buffer.drop e1, state := afterDelim f1 } fut ps := by
   rcases hinv with ⟨s0, e0, h1, h2, h3⟩
   rcases searchDelim_append_stable hb hs fut with ⟨e1', hst, hrel⟩
   rw [h1] at hst
@@ -1013,9 +1232,9 @@ theorem decision_next {bnd : Bytes} (hb : BoundaryOk bnd) {d : Decoder} {fut pre
 
 /-- a hold-back release keeps the invariant -/
 theorem hold_next {bnd : Bytes} {pre buf fut : Bytes} {p : Part} {ps : List Part} {k : Nat}
-    (hinv : DataInv bnd p ps pre buf fut) (hk : k ≤ buf.length)
+    (hinv : DataInv bnd ep p ps pre buf fut) (hk : k ≤ buf.length)
     (hsafe : searchDelim bnd false (buf ++ fut) = shift k (searchDelim bnd false (buf.drop k ++ fut))) :
-    DataInv bnd p ps (pre ++ buf.take k) (buf.drop k) fut := by
+    DataInv bnd ep p ps (pre ++ buf.take k) (buf.drop k) fut := by
   rcases hinv with ⟨s0, e0, h1, h2, h3⟩
   rw [h1] at hsafe
   rcases shift_eq_some hsafe.symm with ⟨s2, e2, hs2, rfl, rfl⟩
@@ -1053,10 +1272,10 @@ theorem nextEvent_of_step {d d' : Decoder} {ev : Event} (hc : d.complete = false
 
 /-- one `next_event` in the DATA phase, on any prefix of the stream -/
 theorem step_dataM {bnd : Bytes} (hb : BoundaryOk bnd) {d : Decoder} {fut : Bytes} {p : Part}
-    {ps : List Part} {E : Bytes} (hg : Good bnd d fut (.dataM p ps E)) :
-    (∃ d', nextEvent d = .ok (.needData, d') ∧ Good bnd d' fut (.dataM p ps E) ∧ fut ≠ []) ∨
-    (∃ x d', nextEvent d = .ok (.data x true, d') ∧ Good bnd d' fut (.dataM p ps (E ++ x))) ∨
-    (∃ x d', E ++ x = p.payload ∧ nextEvent d = .ok (.data x false, d') ∧ GoodNext bnd d' fut ps) := by
+    {ps : List Part} {E : Bytes} (hg : Good bnd ep pr lead d fut (.dataM p ps E)) :
+    (∃ d', nextEvent d = .ok (.needData, d') ∧ Good bnd ep pr lead d' fut (.dataM p ps E) ∧ fut ≠ []) ∨
+    (∃ x d', nextEvent d = .ok (.data x true, d') ∧ Good bnd ep pr lead d' fut (.dataM p ps (E ++ x))) ∨
+    (∃ x d', E ++ x = p.payload ∧ nextEvent d = .ok (.data x false, d') ∧ GoodNext bnd ep pr lead d' fut ps) := by
   rcases hg with ⟨hpl, hst, hsp, pre, hE, hpre2, hinv⟩
   have hpl' := hpl
   rcases hpl with ⟨hbn, hcomp, hmm, hmp⟩
@@ -1107,10 +1326,10 @@ theorem step_dataM {bnd : Bytes} (hb : BoundaryOk bnd) {d : Decoder} {fut : Byte
 
 /-- one `next_event` in the DATA_START phase, on any prefix of the stream -/
 theorem step_dataS {bnd : Bytes} (hb : BoundaryOk bnd) {d : Decoder} {fut : Bytes} {p : Part}
-    {ps : List Part} (hg : Good bnd d fut (.dataS p ps)) :
+    {ps : List Part} (hg : Good bnd ep pr lead d fut (.dataS p ps)) :
     (nextEvent d = .ok (.needData, d) ∧ fut ≠ []) ∨
-    (∃ x d', nextEvent d = .ok (.data x true, d') ∧ Good bnd d' fut (.dataM p ps x)) ∨
-    (∃ d', nextEvent d = .ok (.data p.payload false, d') ∧ GoodNext bnd d' fut ps) := by
+    (∃ x d', nextEvent d = .ok (.data x true, d') ∧ Good bnd ep pr lead d' fut (.dataM p ps x)) ∨
+    (∃ d', nextEvent d = .ok (.data p.payload false, d') ∧ GoodNext bnd ep pr lead d' fut ps) := by
   rcases hg with ⟨hpl, hst, hsp, hlb, ⟨Z, hZ⟩, hinv⟩
   have hpl' := hpl
   rcases hpl with ⟨hbn, hcomp, hmm, hmp⟩
@@ -1163,7 +1382,7 @@ theorem step_dataS {bnd : Bytes} (hb : BoundaryOk bnd) {d : Decoder} {fut : Byte
           simp [List.length_take]; omega
         · simpa using hinv'
 
-theorem step_epi {bnd : Bytes} {d : Decoder} {fut : Bytes} (hg : Good bnd d fut .epi) :
+theorem step_epi {bnd : Bytes} {d : Decoder} {fut : Bytes} (hg : Good bnd ep pr lead d fut .epi) :
     nextEvent d = .ok (.needData, d) := by
   rcases hg with ⟨⟨_, hcomp, _, _⟩, hst⟩
   apply nextEvent_of_step hcomp
@@ -1273,8 +1492,8 @@ theorem acct_last {p : Part} {ps : List Part} {ph ph' : Phase} {E x : Bytes}
     · intro rest; simp [partsGo, hq]
     · rw [hexp]; simp [Exp]
 
-theorem acct_pre {ps : List Part} {ph' : Phase} (hn : nextPhaseOk ph' ps) :
-    Acct (.pre ps) ph' [.preamble []] := by
+theorem acct_pre {ps : List Part} {ph' : Phase} (x : Bytes) (hn : nextPhaseOk ph' ps) :
+    Acct (.pre ps) ph' [.preamble x] := by
   intro cur _
   cases ps with
   | nil =>
@@ -1285,9 +1504,167 @@ theorem acct_pre {ps : List Part} {ph' : Phase} (hn : nextPhaseOk ph' ps) :
     rcases hn with ⟨lf, rfl⟩
     exact ⟨cur, [], trivial, fun rest => by cases cur <;> simp [partsGo], by simp [Exp]⟩
 
+/-! ### accounting for `MultiPartParser.parse`: fields and files -/
+
+abbrev FormOut := List (Option Str × Str) × List FileItem
+
+/-- what `MultiPartParser.parse` does when a part is complete -/
+def finishP (acc : FormOut) (q : Part) : Except String FormOut :=
+  if q.isFile then .ok (acc.1, acc.2 ++ [⟨q.name, q.filename.getD [], q.headers, q.payload⟩])
+  else
+    match partCharset q.headers with
+    | .error e => .error e
+    | .ok cs => .ok (acc.1 ++ [(q.name, decodeCharset cs q.payload)], acc.2)
+
+/-- the fields and files of a list of decoded parts, in order -/
+def formOfParts (acc : FormOut) : List Part → Except String FormOut
+  | [] => .ok acc
+  | q :: t =>
+    match finishP acc q with
+    | .error e => .error e
+    | .ok a => formOfParts a t
+
+def outOf (st : FormState) : FormOut := (st.fields, st.files)
+
+def CurOkF : Phase → FormState → Prop
+  | .pre _, _ => True
+  | .hdr _ _ _, _ => True
+  | .dataS p _, st => st.cur = some { decodedPart p with payload := [] }
+  | .dataM p _ E, st => st.cur = some { decodedPart p with payload := E }
+  | .epi, _ => True
+
+/-- what the parser will return from this phase on -/
+def ExpF : Phase → FormState → Except String FormOut
+  | .pre ps, st => formOfParts (outOf st) (ps.map decodedPart)
+  | .hdr _ p ps, st => formOfParts (outOf st) ((p :: ps).map decodedPart)
+  | .dataS p ps, st => formOfParts (outOf st) ((p :: ps).map decodedPart)
+  | .dataM p ps _, st => formOfParts (outOf st) ((p :: ps).map decodedPart)
+  | .epi, st => .ok (outOf st)
+
+/-- the events `evs` take the parser from phase `ph` to phase `ph'` (or make it fail the way the
+reference does) -/
+def FAcct (ph ph' : Phase) (evs : List Event) : Prop :=
+  ∀ st, CurOkF ph st →
+    (∃ st', CurOkF ph' st' ∧ (∀ rest, formEvents none st (evs ++ rest) = formEvents none st' rest) ∧
+      ExpF ph st = ExpF ph' st') ∨
+    (∃ e, (∀ rest, formEvents none st (evs ++ rest) = .error e) ∧ ExpF ph st = .error e)
+
+theorem FAcct.refl (ph : Phase) : FAcct ph ph [] :=
+  fun st h => Or.inl ⟨st, h, fun _ => rfl, rfl⟩
+
+theorem FAcct.trans {a b c : Phase} {e1 e2 : List Event} (h1 : FAcct a b e1) (h2 : FAcct b c e2) :
+    FAcct a c (e1 ++ e2) := by
+  intro st hc
+  rcases h1 st hc with ⟨st1, hc1, hp1, hx1⟩ | ⟨e, hp1, hx1⟩
+  · rcases h2 st1 hc1 with ⟨st2, hc2, hp2, hx2⟩ | ⟨e, hp2, hx2⟩
+    · exact Or.inl ⟨st2, hc2, fun rest => by rw [List.append_assoc, hp1, hp2], by rw [hx1, hx2]⟩
+    · exact Or.inr ⟨e, fun rest => by rw [List.append_assoc, hp1, hp2], by rw [hx1, hx2]⟩
+  · exact Or.inr ⟨e, fun rest => by rw [List.append_assoc, hp1], hx1⟩
+
+theorem formEvents_cons (m : Option Nat) (st : FormState) (ev : Event) (rest : List Event) :
+    formEvents m st (ev :: rest) =
+      match formEvent m st ev with
+      | .error e => .error e
+      | .ok st' => formEvents m st' rest := rfl
+
+theorem facct_pre {ps : List Part} {ph' : Phase} (x : Bytes) (hn : nextPhaseOk ph' ps) :
+    FAcct (.pre ps) ph' [.preamble x] := by
+  intro st _
+  left
+  cases ps with
+  | nil =>
+    simp only [nextPhaseOk] at hn
+    subst hn
+    exact ⟨st, trivial, fun rest => by simp [formEvents_cons, formEvent], by simp [ExpF, formOfParts]⟩
+  | cons p' ps' =>
+    rcases hn with ⟨lf, rfl⟩
+    exact ⟨st, trivial, fun rest => by simp [formEvents_cons, formEvent], rfl⟩
+
+theorem facct_head {bnd : Bytes} {lf : Bool} {p : Part} {ps : List Part} (hv : ValidPart bnd p) :
+    FAcct (.hdr lf p ps) (.dataS p ps) [partHeadEvent (decodedPart p)] := by
+  intro st _
+  left
+  have hf := validPart_facts hv
+  cases hfn : p.filename with
+  | none =>
+    have hfile : p.isFile = false := by rw [hf.2.2.2.1, hfn]; rfl
+    refine ⟨{ st with cur := some { decodedPart p with payload := [] }, fieldSize := some 0 }, ?_, ?_, rfl⟩
+    · rfl
+    · intro rest
+      simp [formEvents_cons, formEvent, partHeadEvent, decodedPart, hfn, hfile]
+  | some f =>
+    have hfile : p.isFile = true := by rw [hf.2.2.2.1, hfn]; rfl
+    refine ⟨{ st with cur := some { decodedPart p with payload := [] }, fieldSize := none }, ?_, ?_, rfl⟩
+    · rfl
+    · intro rest
+      simp [formEvents_cons, formEvent, partHeadEvent, decodedPart, hfn, hfile]
+
+theorem facct_more {p : Part} {ps : List Part} {ph : Phase} {E x : Bytes}
+    (hph : ph = .dataS p ps ∧ E = [] ∨ ph = .dataM p ps E) :
+    FAcct ph (.dataM p ps (E ++ x)) [.data x true] := by
+  intro st hc
+  left
+  have hcur : st.cur = some { decodedPart p with payload := E } := by
+    rcases hph with ⟨rfl, rfl⟩ | rfl <;> simpa [CurOkF] using hc
+  refine ⟨{ st with cur := some { decodedPart p with payload := E ++ x } }, rfl, ?_, ?_⟩
+  · intro rest
+    simp [formEvents_cons, formEvent, fieldSizeStep, hcur]
+  · rcases hph with ⟨rfl, _⟩ | rfl <;> rfl
+
+theorem facct_last {p : Part} {ps : List Part} {ph ph' : Phase} {E x : Bytes}
+    (hph : ph = .dataS p ps ∧ E = [] ∨ ph = .dataM p ps E) (hx : E ++ x = p.payload)
+    (hn : nextPhaseOk ph' ps) : FAcct ph ph' [.data x false] := by
+  intro st hc
+  have hcur : st.cur = some { decodedPart p with payload := E } := by
+    rcases hph with ⟨rfl, rfl⟩ | rfl <;> simpa [CurOkF] using hc
+  have hq : ({ decodedPart p with payload := E ++ x } : Part) = decodedPart p := by rw [hx]; rfl
+  have hx' : E ++ x = (decodedPart p).payload := hx
+  have hexp : ExpF ph st = formOfParts (outOf st) (decodedPart p :: ps.map decodedPart) := by
+    rcases hph with ⟨rfl, _⟩ | rfl <;> rfl
+  have hnext : ∀ st' : FormState, ExpF ph' st' = formOfParts (outOf st') (ps.map decodedPart) := by
+    intro st'
+    cases ps with
+    | nil => simp only [nextPhaseOk] at hn; subst hn; simp [ExpF, formOfParts]
+    | cons p' ps' => rcases hn with ⟨lf, rfl⟩; rfl
+  have hcok : ∀ st' : FormState, CurOkF ph' st' := by
+    intro st'
+    cases ps with
+    | nil => simp only [nextPhaseOk] at hn; subst hn; trivial
+    | cons p' ps' => rcases hn with ⟨lf, rfl⟩; trivial
+  rw [hexp]
+  simp only [formOfParts, finishP]
+  cases hfile : (decodedPart p).isFile with
+  | true =>
+    left
+    refine ⟨{ st with cur := some (decodedPart p),
+                      files := st.files ++ [⟨(decodedPart p).name, (decodedPart p).filename.getD [],
+                        (decodedPart p).headers, (decodedPart p).payload⟩] }, hcok _, ?_, ?_⟩
+    · intro rest
+      simp only [List.cons_append, List.nil_append, formEvents_cons, formEvent, fieldSizeStep, hcur, hq]
+      simp [hfile, hx']
+    · simp only [if_true]; rw [hnext]; rfl
+  | false =>
+    simp only [Bool.false_eq_true, if_false]
+    cases hcs : partCharset (decodedPart p).headers with
+    | error e =>
+      right
+      refine ⟨e, ?_, rfl⟩
+      intro rest
+      simp only [List.cons_append, List.nil_append, formEvents_cons, formEvent, fieldSizeStep, hcur, hq]
+      simp [hfile, hcs]
+    | ok cs =>
+      left
+      refine ⟨{ st with cur := some (decodedPart p),
+                        fields := st.fields ++ [((decodedPart p).name, decodeCharset cs (decodedPart p).payload)] },
+        hcok _, ?_, ?_⟩
+      · intro rest
+        simp only [List.cons_append, List.nil_append, formEvents_cons, formEvent, fieldSizeStep, hcur, hq]
+        simp [hfile, hcs, hx']
+      · simp only; rw [hnext]; rfl
+
 theorem goodNext_phase {bnd : Bytes} {d : Decoder} {fut : Bytes} {ps : List Part}
-    (h : GoodNext bnd d fut ps) (hv : ∀ q ∈ ps, ValidPart bnd q) :
-    ∃ ph', Good bnd d fut ph' ∧ PhaseValid bnd ph' ∧ nextPhaseOk ph' ps := by
+    (h : GoodNext bnd ep pr lead d fut ps) (hv : ∀ q ∈ ps, ValidPart bnd q) :
+    ∃ ph', Good bnd ep pr lead d fut ph' ∧ PhaseValid bnd ph' ∧ nextPhaseOk ph' ps := by
   cases ps with
   | nil => exact ⟨.epi, h, trivial, rfl⟩
   | cons p' ps' =>
@@ -1305,105 +1682,110 @@ theorem shrink_step {d d1 : Decoder} {ev : Event} {n : Nat} (hn : nextEvent d = 
 /-- **draining keeps the run on track**: from any good configuration, `drain` delivers events that
 account for the expected parts and stops in a good configuration; when nothing more is to come it
 stops after the closing delimiter. -/
-theorem drain_good {bnd : Bytes} (hb : BoundaryOk bnd) (fut : Bytes) :
+theorem drain_good {bnd : Bytes} (hb : BoundaryOk bnd) (hpre : PreOk bnd pr lead) (fut : Bytes) :
     ∀ (n : Nat) (d : Decoder) (ph : Phase) (acc : List Event), d.buffer.length ≤ n →
-      Good bnd d fut ph → PhaseValid bnd ph →
-      ∃ evs d' ph', DrainsOk d acc evs d' ∧ Good bnd d' fut ph' ∧ PhaseValid bnd ph' ∧ Acct ph ph' evs ∧
-        (fut = [] → ph' = .epi) := by
+      Good bnd ep pr lead d fut ph → PhaseValid bnd ph →
+      ∃ evs d' ph', DrainsOk d acc evs d' ∧ Good bnd ep pr lead d' fut ph' ∧ PhaseValid bnd ph' ∧ Acct ph ph' evs ∧
+        FAcct ph ph' evs ∧ (fut = [] → ph' = .epi) := by
   intro n
   induction n with
   | zero =>
     intro d ph acc hle hg hv
     cases ph with
-    | epi => exact ⟨[], d, .epi, DrainsOk.stop acc (step_epi hg), hg, trivial, Acct.refl _, fun _ => rfl⟩
+    | epi => exact ⟨[], d, .epi, DrainsOk.stop acc (step_epi hg), hg, trivial, Acct.refl _, FAcct.refl _, fun _ => rfl⟩
     | pre ps =>
-      rcases step_pre hb hg with ⟨d', h1, h2, h3⟩ | ⟨d', h1, _⟩
-      · exact ⟨[], d', _, DrainsOk.stop acc h1, h2, hv, Acct.refl _, fun h => absurd h h3⟩
+      rcases step_pre hb hpre hg with ⟨d', h1, h2, h3⟩ | ⟨x, d', h1, _⟩
+      · exact ⟨[], d', _, DrainsOk.stop acc h1, h2, hv, Acct.refl _, FAcct.refl _, fun h => absurd h h3⟩
       · rcases shrink_step h1 (by simp) (by simp) hle with ⟨k, hk, _⟩; omega
     | hdr lf p ps =>
       rcases step_hdr hb hv.1 hg with ⟨d', h1, h2, h3⟩ | ⟨d', h1, _⟩
-      · exact ⟨[], d', _, DrainsOk.stop acc h1, h2, hv, Acct.refl _, fun h => absurd h h3⟩
+      · exact ⟨[], d', _, DrainsOk.stop acc h1, h2, hv, Acct.refl _, FAcct.refl _, fun h => absurd h h3⟩
       · rcases shrink_step h1 (by unfold partHeadEvent; split <;> simp) (by unfold partHeadEvent; intro x; split <;> simp) hle
           with ⟨k, hk, _⟩
         omega
     | dataS p ps =>
       rcases step_dataS hb hg with ⟨h1, h3⟩ | ⟨x, d', h1, _⟩ | ⟨d', h1, _⟩
-      · exact ⟨[], d, _, DrainsOk.stop acc h1, hg, hv, Acct.refl _, fun h => absurd h h3⟩
+      · exact ⟨[], d, _, DrainsOk.stop acc h1, hg, hv, Acct.refl _, FAcct.refl _, fun h => absurd h h3⟩
       · rcases shrink_step h1 (by simp) (by simp) hle with ⟨k, hk, _⟩; omega
       · rcases shrink_step h1 (by simp) (by simp) hle with ⟨k, hk, _⟩; omega
     | dataM p ps E =>
       rcases step_dataM hb hg with ⟨d', h1, h2, h3⟩ | ⟨x, d', h1, _⟩ | ⟨x, d', _, h1, _⟩
-      · exact ⟨[], d', _, DrainsOk.stop acc h1, h2, hv, Acct.refl _, fun h => absurd h h3⟩
+      · exact ⟨[], d', _, DrainsOk.stop acc h1, h2, hv, Acct.refl _, FAcct.refl _, fun h => absurd h h3⟩
       · rcases shrink_step h1 (by simp) (by simp) hle with ⟨k, hk, _⟩; omega
       · rcases shrink_step h1 (by simp) (by simp) hle with ⟨k, hk, _⟩; omega
   | succ n ih =>
     intro d ph acc hle hg hv
     cases ph with
-    | epi => exact ⟨[], d, .epi, DrainsOk.stop acc (step_epi hg), hg, trivial, Acct.refl _, fun _ => rfl⟩
+    | epi => exact ⟨[], d, .epi, DrainsOk.stop acc (step_epi hg), hg, trivial, Acct.refl _, FAcct.refl _, fun _ => rfl⟩
     | pre ps =>
-      rcases step_pre hb hg with ⟨d', h1, h2, h3⟩ | ⟨d', h1, h2⟩
-      · exact ⟨[], d', _, DrainsOk.stop acc h1, h2, hv, Acct.refl _, fun h => absurd h h3⟩
+      rcases step_pre hb hpre hg with ⟨d', h1, h2, h3⟩ | ⟨x, d', h1, h2⟩
+      · exact ⟨[], d', _, DrainsOk.stop acc h1, h2, hv, Acct.refl _, FAcct.refl _, fun h => absurd h h3⟩
       · rcases shrink_step h1 (by simp) (by simp) hle with ⟨k, hk, hle'⟩
         have hk' : k = n := by omega
         subst hk'
         rcases goodNext_phase h2 hv with ⟨ph1, hg1, hv1, hn1⟩
-        rcases ih d' ph1 (.preamble [] :: acc) hle' hg1 hv1 with ⟨evs, d2, ph2, hd, hg2, hv2, ha, hf⟩
-        exact ⟨_, d2, ph2, DrainsOk.step_pre h1 hd, hg2, hv2, Acct.trans (acct_pre hn1) ha, hf⟩
+        rcases ih d' ph1 (.preamble x :: acc) hle' hg1 hv1 with ⟨evs, d2, ph2, hd, hg2, hv2, ha, hfa, hf⟩
+        exact ⟨_, d2, ph2, DrainsOk.step_pre h1 hd, hg2, hv2, Acct.trans (acct_pre x hn1) ha,
+          FAcct.trans (facct_pre x hn1) hfa, hf⟩
     | hdr lf p ps =>
       rcases step_hdr hb hv.1 hg with ⟨d', h1, h2, h3⟩ | ⟨d', h1, h2⟩
-      · exact ⟨[], d', _, DrainsOk.stop acc h1, h2, hv, Acct.refl _, fun h => absurd h h3⟩
+      · exact ⟨[], d', _, DrainsOk.stop acc h1, h2, hv, Acct.refl _, FAcct.refl _, fun h => absurd h h3⟩
       · rcases shrink_step h1 (by unfold partHeadEvent; split <;> simp) (by unfold partHeadEvent; intro x; split <;> simp) hle
           with ⟨k, hk, hle'⟩
         have hk' : k = n := by omega
         subst hk'
         rcases ih d' (.dataS p ps) (partHeadEvent (decodedPart p) :: acc) hle' h2 hv with
-          ⟨evs, d2, ph2, hd, hg2, hv2, ha, hf⟩
-        exact ⟨_, d2, ph2, DrainsOk.step_head h1 hd, hg2, hv2, Acct.trans (acct_head hv.1) ha, hf⟩
+          ⟨evs, d2, ph2, hd, hg2, hv2, ha, hfa, hf⟩
+        exact ⟨_, d2, ph2, DrainsOk.step_head h1 hd, hg2, hv2, Acct.trans (acct_head hv.1) ha, FAcct.trans (facct_head hv.1) hfa, hf⟩
     | dataS p ps =>
       rcases step_dataS hb hg with ⟨h1, h3⟩ | ⟨x, d', h1, h2⟩ | ⟨d', h1, h2⟩
-      · exact ⟨[], d, _, DrainsOk.stop acc h1, hg, hv, Acct.refl _, fun h => absurd h h3⟩
+      · exact ⟨[], d, _, DrainsOk.stop acc h1, hg, hv, Acct.refl _, FAcct.refl _, fun h => absurd h h3⟩
       · rcases shrink_step h1 (by simp) (by simp) hle with ⟨k, hk, hle'⟩
         have hk' : k = n := by omega
         subst hk'
-        rcases ih d' (.dataM p ps x) (.data x true :: acc) hle' h2 hv with ⟨evs, d2, ph2, hd, hg2, hv2, ha, hf⟩
-        exact ⟨_, d2, ph2, DrainsOk.step_data h1 hd, hg2, hv2, Acct.trans acct_dataS_more ha, hf⟩
+        rcases ih d' (.dataM p ps x) (.data x true :: acc) hle' h2 hv with ⟨evs, d2, ph2, hd, hg2, hv2, ha, hfa, hf⟩
+        exact ⟨_, d2, ph2, DrainsOk.step_data h1 hd, hg2, hv2, Acct.trans acct_dataS_more ha,
+          FAcct.trans (facct_more (E := []) (Or.inl ⟨rfl, rfl⟩)) hfa, hf⟩
       · rcases shrink_step h1 (by simp) (by simp) hle with ⟨k, hk, hle'⟩
         have hk' : k = n := by omega
         subst hk'
         rcases goodNext_phase h2 hv.2 with ⟨ph1, hg1, hv1, hn1⟩
-        rcases ih d' ph1 (.data p.payload false :: acc) hle' hg1 hv1 with ⟨evs, d2, ph2, hd, hg2, hv2, ha, hf⟩
+        rcases ih d' ph1 (.data p.payload false :: acc) hle' hg1 hv1 with ⟨evs, d2, ph2, hd, hg2, hv2, ha, hfa, hf⟩
         exact ⟨_, d2, ph2, DrainsOk.step_data h1 hd, hg2, hv2,
-          Acct.trans (acct_last (E := []) (Or.inl ⟨rfl, rfl⟩) (by simp) hn1) ha, hf⟩
+          Acct.trans (acct_last (E := []) (Or.inl ⟨rfl, rfl⟩) (by simp) hn1) ha,
+          FAcct.trans (facct_last (E := []) (Or.inl ⟨rfl, rfl⟩) (by simp) hn1) hfa, hf⟩
     | dataM p ps E =>
       rcases step_dataM hb hg with ⟨d', h1, h2, h3⟩ | ⟨x, d', h1, h2⟩ | ⟨x, d', hx, h1, h2⟩
-      · exact ⟨[], d', _, DrainsOk.stop acc h1, h2, hv, Acct.refl _, fun h => absurd h h3⟩
+      · exact ⟨[], d', _, DrainsOk.stop acc h1, h2, hv, Acct.refl _, FAcct.refl _, fun h => absurd h h3⟩
       · rcases shrink_step h1 (by simp) (by simp) hle with ⟨k, hk, hle'⟩
         have hk' : k = n := by omega
         subst hk'
         rcases ih d' (.dataM p ps (E ++ x)) (.data x true :: acc) hle' h2 hv with
-          ⟨evs, d2, ph2, hd, hg2, hv2, ha, hf⟩
-        exact ⟨_, d2, ph2, DrainsOk.step_data h1 hd, hg2, hv2, Acct.trans acct_dataM_more ha, hf⟩
+          ⟨evs, d2, ph2, hd, hg2, hv2, ha, hfa, hf⟩
+        exact ⟨_, d2, ph2, DrainsOk.step_data h1 hd, hg2, hv2, Acct.trans acct_dataM_more ha,
+          FAcct.trans (facct_more (Or.inr rfl)) hfa, hf⟩
       · rcases shrink_step h1 (by simp) (by simp) hle with ⟨k, hk, hle'⟩
         have hk' : k = n := by omega
         subst hk'
         rcases goodNext_phase h2 hv.2 with ⟨ph1, hg1, hv1, hn1⟩
-        rcases ih d' ph1 (.data x false :: acc) hle' hg1 hv1 with ⟨evs, d2, ph2, hd, hg2, hv2, ha, hf⟩
+        rcases ih d' ph1 (.data x false :: acc) hle' hg1 hv1 with ⟨evs, d2, ph2, hd, hg2, hv2, ha, hfa, hf⟩
         exact ⟨_, d2, ph2, DrainsOk.step_data h1 hd, hg2, hv2,
-          Acct.trans (acct_last (Or.inr rfl) hx hn1) ha, hf⟩
+          Acct.trans (acct_last (Or.inr rfl) hx hn1) ha,
+          FAcct.trans (facct_last (Or.inr rfl) hx hn1) hfa, hf⟩
 
 /-! ### chunk after chunk -/
 
 theorem good_receive {bnd : Bytes} {d : Decoder} {c fut : Bytes} {ph : Phase}
-    (hg : Good bnd d (c ++ fut) ph) :
-    ∃ d1, receive d (some c) = .ok d1 ∧ Good bnd d1 fut ph := by
+    (hg : Good bnd ep pr lead d (c ++ fut) ph) :
+    ∃ d1, receive d (some c) = .ok d1 ∧ Good bnd ep pr lead d1 fut ph := by
   have hpl : Plain bnd d := by cases ph <;> exact hg.1
   rcases hpl with ⟨hbn, hcomp, hmm, hmp⟩
   refine ⟨{ d with buffer := d.buffer ++ c }, by simp [receive, hmm], ?_⟩
   cases ph with
   | epi => exact ⟨⟨hbn, hcomp, hmm, hmp⟩, hg.2⟩
   | pre ps =>
-    rcases hg with ⟨_, hst, hsp, hcat⟩
-    exact ⟨⟨hbn, hcomp, hmm, hmp⟩, hst, hsp, by simpa using hcat⟩
+    rcases hg with ⟨_, hst, hcat, b0, c0, hbc, hb0, hpos⟩
+    exact ⟨⟨hbn, hcomp, hmm, hmp⟩, hst, by simpa using hcat, b0, c0 ++ c, by simp [hbc], hb0, hpos⟩
   | hdr lf p ps =>
     rcases hg with ⟨_, hst, hcat, b0, c0, hbc, hb0, hpos⟩
     exact ⟨⟨hbn, hcomp, hmm, hmp⟩, hst, by simpa using hcat, b0, c0 ++ c, by simp [hbc], hb0, hpos⟩
@@ -1419,7 +1801,7 @@ theorem good_receive {bnd : Bytes} {d : Decoder} {c fut : Bytes} {ph : Phase}
     rcases hinv with ⟨s0, e0, h1, h2, h3⟩
     exact ⟨s0, e0, by simpa using h1, by simpa using h2, by simpa using h3⟩
 
-theorem feed_none_epi {bnd : Bytes} {d : Decoder} (hg : Good bnd d [] .epi) :
+theorem feed_none_epi {bnd : Bytes} {d : Decoder} (hg : Good bnd ep pr lead d [] .epi) :
     feed d none = { events := [.epilogue d.buffer], err := none,
                     dec := { d with complete := true, buffer := [], state := .complete } } := by
   rcases hg with ⟨⟨_, hcomp, _, _⟩, hst⟩
@@ -1428,8 +1810,8 @@ theorem feed_none_epi {bnd : Bytes} {d : Decoder} (hg : Good bnd d [] .epi) :
     simp [nextEvent, step, hst]
   simp [feed, receive, drainFuel, drain_succ, hn]
 
-theorem feedAll_good {bnd : Bytes} (hb : BoundaryOk bnd) (chunks : List Bytes) :
-    ∀ (d : Decoder) (ph : Phase), Good bnd d chunks.flatten ph → PhaseValid bnd ph →
+theorem feedAll_good {bnd : Bytes} (hb : BoundaryOk bnd) (hpre : PreOk bnd pr lead) (chunks : List Bytes) :
+    ∀ (d : Decoder) (ph : Phase), Good bnd ep pr lead d chunks.flatten ph → PhaseValid bnd ph →
       (chunks.flatten = [] → ph = .epi) → ∀ cur, CurOk ph cur →
       (feedAll d chunks).err = none ∧ partsGo cur (feedAll d chunks).events = Exp ph cur := by
   induction chunks with
@@ -1444,27 +1826,36 @@ theorem feedAll_good {bnd : Bytes} (hb : BoundaryOk bnd) (chunks : List Bytes) :
     intro d ph hg hv hepi cur hc
     simp only [List.flatten_cons] at hg
     rcases good_receive hg with ⟨d1, hr, hg1⟩
-    rcases drain_good hb cs.flatten d1.buffer.length d1 ph [] (Nat.le_refl _) hg1 hv with
-      ⟨evs, d2, ph2, hd, hg2, hv2, ha, hf⟩
+    rcases drain_good hb hpre cs.flatten d1.buffer.length d1 ph [] (Nat.le_refl _) hg1 hv with
+      ⟨evs, d2, ph2, hd, hg2, hv2, ha, _, hf⟩
     have hfeed := DrainsOk.toFeed hr hd
     rcases ha cur hc with ⟨cur2, out, hc2, hp, hx⟩
     rcases ih d2 ph2 hg2 hv2 hf cur2 hc2 with ⟨herr, hparts⟩
     simp only [feedAll, hfeed]
     exact ⟨herr, by rw [hp, hparts, hx]⟩
 
+theorem preOk_trivial (bnd : Bytes) : PreOk bnd [] true := by
+  simp [PreOk, containsSub, delim]
+
+theorem bodyOf_nonempty (bnd ep pr : Bytes) (lead : Bool) (ps : List Part) : bodyOf bnd ep pr lead ps ≠ [] := by
+  unfold bodyOf
+  rw [encBody_eq]
+  cases lead <;> simp [delim]
+
 /-- **chunk independence on encoder output, from the first header block on** -/
 theorem decode_chunks_lemma {bnd : Bytes} (hb : BoundaryOk bnd) (ps : List Part)
-    (hv : ∀ p ∈ ps, ValidPart bnd p) (chunks : List Bytes) (hjoin : chunks.flatten = afterOf bnd ps) :
+    (hv : ∀ p ∈ ps, ValidPart bnd p) (chunks : List Bytes) (hjoin : chunks.flatten = afterOf bnd ep ps) :
     (feedAll (mkD bnd [] (afterDelim ps.isEmpty) 0) chunks).err = none ∧
     partsOf (feedAll (mkD bnd [] (afterDelim ps.isEmpty) 0) chunks).events = ps.map decodedPart := by
   cases ps with
   | nil =>
-    have hg : Good bnd (mkD bnd [] (afterDelim ([] : List Part).isEmpty) 0) chunks.flatten .epi :=
+    have hg : Good bnd ep [] true (mkD bnd [] (afterDelim ([] : List Part).isEmpty) 0) chunks.flatten .epi :=
       ⟨⟨rfl, rfl, rfl, rfl⟩, rfl⟩
-    have := feedAll_good hb chunks _ .epi hg trivial (fun _ => rfl) none trivial
+    have := feedAll_good hb (preOk_trivial bnd) chunks _ .epi hg trivial (fun _ => rfl) none trivial
     simpa [partsOf, Exp] using this
   | cons p ps =>
-    have hg : Good bnd (mkD bnd [] (afterDelim (p :: ps).isEmpty) 0) chunks.flatten (.hdr false p ps) := by
+    have hg : Good bnd ep [] true (mkD bnd [] (afterDelim (p :: ps).isEmpty) 0) chunks.flatten
+        (.hdr false p ps) := by
       refine ⟨⟨rfl, rfl, rfl, rfl⟩, rfl, by simp [mkD, lfPre, hjoin], [], [], rfl, by simp [searchBlank], by simp [mkD]⟩
     have hne : chunks.flatten = [] → Phase.hdr false p ps = .epi := by
       intro h0
@@ -1472,23 +1863,98 @@ theorem decode_chunks_lemma {bnd : Bytes} (hb : BoundaryOk bnd) (ps : List Part)
       rcases hdrBlock_head (nameOf p) p with ⟨r, hr⟩
       rw [afterOf_cons, hr] at h0
       simp at h0
-    have := feedAll_good hb chunks _ (.hdr false p ps) hg
+    have := feedAll_good hb (preOk_trivial bnd) chunks _ (.hdr false p ps) hg
       ⟨hv p (by simp), fun q hq => hv q (by simp [hq])⟩ hne none trivial
     simpa [partsOf, Exp] using this
 
-
-/-- **chunk independence on encoder output, from the first byte** -/
-theorem decode_chunks_full_lemma {bnd : Bytes} (hb : BoundaryOk bnd) (ps : List Part)
-    (hv : ∀ p ∈ ps, ValidPart bnd p) (chunks : List Bytes) (hjoin : chunks.flatten = encBody bnd ps) :
+/-- **chunk independence from the first byte, with preamble and epilogue** -/
+theorem decode_chunks_full_lemma {bnd : Bytes} (hb : BoundaryOk bnd) (hpre : PreOk bnd pr lead)
+    (ps : List Part) (hv : ∀ p ∈ ps, ValidPart bnd p) (chunks : List Bytes)
+    (hjoin : chunks.flatten = bodyOf bnd ep pr lead ps) :
     (decodeChunks bnd none none chunks).err = none ∧
     partsOf (decodeChunks bnd none none chunks).events = ps.map decodedPart := by
-  have hg : Good bnd (mkDecoder bnd none none) chunks.flatten (.pre ps) :=
-    ⟨⟨rfl, rfl, rfl, rfl⟩, rfl, rfl, by simp [mkDecoder, hjoin]⟩
+  have hg : Good bnd ep pr lead (mkDecoder bnd none none) chunks.flatten (.pre ps) :=
+    ⟨⟨rfl, rfl, rfl, rfl⟩, rfl, by simp [mkDecoder, hjoin], [], [], rfl, by simp [searchDelim],
+      by simp [mkDecoder]⟩
   have hne : chunks.flatten = [] → Phase.pre ps = .epi := by
     intro h0
-    rw [hjoin, encBody_eq] at h0
-    simp at h0
-  have := feedAll_good hb chunks _ (.pre ps) hg hv hne none trivial
+    rw [hjoin] at h0
+    exact absurd h0 (bodyOf_nonempty bnd ep pr lead ps)
+  have := feedAll_good hb hpre chunks _ (.pre ps) hg hv hne none trivial
   simpa [partsOf, Exp, decodeChunks] using this
+
+/-! ### one level up: `MultiPartParser.parse` over any read schedule -/
+
+theorem formLoop_good {bnd : Bytes} (hb : BoundaryOk bnd) (hpre : PreOk bnd pr lead) (chunks : List Bytes) :
+    ∀ (d : Decoder) (ph : Phase) (st : FormState), Good bnd ep pr lead d chunks.flatten ph → PhaseValid bnd ph →
+      (chunks.flatten = [] → ph = .epi) → CurOkF ph st →
+      (formLoop none d st (chunks.map some ++ [none])).map outOf = ExpF ph st := by
+  induction chunks with
+  | nil =>
+    intro d ph st hg hv hepi hc
+    have := hepi rfl
+    subst this
+    simp only [List.flatten_nil] at hg
+    simp only [List.map_nil, List.nil_append, formLoop, feed_none_epi hg]
+    simp [formEvents, formEvent, formLoop, ExpF, Except.map]
+  | cons c cs ih =>
+    intro d ph st hg hv hepi hc
+    simp only [List.flatten_cons] at hg
+    rcases good_receive hg with ⟨d1, hr, hg1⟩
+    rcases drain_good hb hpre cs.flatten d1.buffer.length d1 ph [] (Nat.le_refl _) hg1 hv with
+      ⟨evs, d2, ph2, hd, hg2, hv2, _, hfa, hf⟩
+    have hfeed := DrainsOk.toFeed hr hd
+    simp only [List.map_cons, List.cons_append, formLoop, hfeed]
+    rcases hfa st hc with ⟨st2, hc2, hp, hx⟩ | ⟨e, hp, hx⟩
+    · have := hp []
+      simp only [List.append_nil, formEvents] at this
+      rw [this]
+      simp only
+      rw [hx]
+      exact ih d2 ph2 st2 hg2 hv2 hf hc2
+    · have := hp []
+      simp only [List.append_nil] at this
+      rw [this, hx]
+      rfl
+
+theorem readChunks_flatten (bufSize : Nat) : ∀ (fuel : Nat) (sched : List Nat) (body : Bytes),
+    body.length ≤ fuel → (readChunks bufSize fuel sched body).flatten = body := by
+  intro fuel
+  induction fuel with
+  | zero => intro sched body h; have : body = [] := List.eq_nil_of_length_eq_zero (by omega); simp [this, readChunks]
+  | succ fuel ih =>
+    intro sched body h
+    cases body with
+    | nil => simp [readChunks]
+    | cons a t =>
+      simp only [readChunks, List.flatten_cons]
+      rw [ih]
+      · simp
+      · have : 1 ≤ max 1 (min bufSize (sched.headD bufSize)) := Nat.le_max_left _ _
+        simp only [List.length_drop, List.length_cons] at h ⊢
+        omega
+
+/-- **the form parser**: fields and files for every buffer size and read schedule -/
+theorem formParse_lemma {bnd : Bytes} (hb : BoundaryOk bnd) (hpre : PreOk bnd pr lead) (ps : List Part)
+    (hv : ∀ p ∈ ps, ValidPart bnd p) (bufSize : Nat) (sched : List Nat) :
+    formParse bnd none none bufSize sched (bodyOf bnd ep pr lead ps) =
+      formOfParts ([], []) (ps.map decodedPart) := by
+  generalize hB : bodyOf bnd ep pr lead ps = body
+  have hfl := readChunks_flatten bufSize body.length sched body (Nat.le_refl _)
+  have hg : Good bnd ep pr lead (mkDecoder bnd none none)
+      (readChunks bufSize body.length sched body).flatten (.pre ps) :=
+    ⟨⟨rfl, rfl, rfl, rfl⟩, rfl, by simp [mkDecoder, hfl, hB], [], [], rfl, by simp [searchDelim],
+      by simp [mkDecoder]⟩
+  have hne : (readChunks bufSize body.length sched body).flatten = [] → Phase.pre ps = .epi := by
+    intro h0
+    rw [hfl, ← hB] at h0
+    exact absurd h0 (bodyOf_nonempty bnd ep pr lead ps)
+  have := formLoop_good hb hpre _ _ (.pre ps) {} hg hv hne trivial
+  unfold formParse
+  simp only
+  cases hl : formLoop none (mkDecoder bnd none none) {}
+      ((readChunks bufSize body.length sched body).map some ++ [none]) with
+  | error e => rw [hl] at this; simpa [Except.map, ExpF, outOf] using this
+  | ok st => rw [hl] at this; simpa [Except.map, ExpF, outOf] using this
 
 end Wz.Multipart
